@@ -349,9 +349,31 @@ struct hb_weak_ptr {
     hb_pseudo("hb.expired", this, e ? 1 : 0, e ? 1 : 0);
     return e;
   }
-  hb_shared_ptr<T> lock() const noexcept { return hb_shared_ptr<T>{w_.lock()}; }
-  long use_count() const noexcept { return w_.use_count(); }
-  void reset() noexcept { w_.reset(); }
+  // every other access to a slot's heartbeat is a scheduling point with its own event too (the library as modelled
+  // uses none of them: an occurrence shows up as an event the model does not have)
+  hb_shared_ptr<T>
+  lock() const noexcept
+  {
+    hb_yield();
+    auto sp = w_.lock();
+    hb_pseudo("hb.lock", this, sp ? 1 : 0, sp ? 1 : 0);
+    return hb_shared_ptr<T>{std::move(sp)};
+  }
+  long
+  use_count() const noexcept
+  {
+    hb_yield();
+    const long n = w_.use_count();
+    hb_pseudo("hb.usecount", this, static_cast<uint64_t>(n), static_cast<uint64_t>(n));
+    return n;
+  }
+  void
+  reset() noexcept
+  {
+    hb_yield();
+    w_.reset();
+    hb_pseudo("hb.reset", this, 0, 0);
+  }
 };
 
 template <class T, class... Args>
